@@ -148,7 +148,10 @@ class Case:
                     self.hbh += 1
                     hbh = self.hbh
                     flags = 0xc0 | (0x10 if t else 0)
-                    self.mode[(hbh, e2e)] = "defer" if mode == "defer" else "answer"
+                    self.mode[(hbh, e2e)] = {"defer": "defer", "rewrite": "answer_rewrite"}.get(mode, "answer")
+                    if mode == "rewrite":
+                        self.run.cov["requests_whose_origin_the_application_rewrites"] = \
+                            self.run.cov.get("requests_whose_origin_the_application_rewrites", 0) + 1
                     dup = bool(t) and e2e in self.window.get(origin, [])
                     seen_before = e2e in self.window.get(origin, []) or any(p[0] == origin and p[1] == e2e
                                                                              for p in self.pending)
@@ -315,14 +318,14 @@ def run_shard(spec):
                                                                 ("reconn",), ("req", 2, 0, 0, "now"), ("req", 2, 0, 1, "now"),
                                                                 ("wd", 0, 0, 0), ("wd", 0, 0, 1), ("wd", 0, 1, 1),
                                                                 ("req", 0, 0, 0, "noroute"), ("req", 0, 0, 1, "noapp"),
-                                                                ("idle",), ("dwa",)]
+                                                                ("idle",), ("dwa",), ("req", 0, 0, 0, "rewrite")]
         i = 0
         for L in range(2, spec["length"] + 1):
             for seq in itertools.product(small, repeat=L):
                 i += 1
                 if i % spec["parts"] != spec["part"]:
                     continue
-                if L == spec["length"] and (i // spec["parts"]) % 12:
+                if L == spec["length"] and (i // spec["parts"]) % 20:
                     continue
                 for N in (1, 2):
                     run.one(N, seq)
@@ -342,6 +345,8 @@ def run_shard(spec):
                         s[1] = 2          # the request originates at the peer itself
                     if rng.random() < 0.15:
                         s[4] = rng.choice(["noroute", "noapp"])
+                    elif s[4] == "now" and rng.random() < 0.3:
+                        s[4] = "rewrite"
                     seq.append(tuple(s) + (rng.randrange(nconn),))
                 elif r < 0.78:
                     seq.append(("wd", rng.randrange(2), rng.randrange(3), int(rng.random() < 0.6), 0, rng.randrange(nconn)))
